@@ -75,7 +75,7 @@ class LineV:
     def __repr__(self):
         body = (" " if self.sep == "ws" else ",").join(f.name for f in self.fields)
         return "%r" % ("%s%s%s%s%s" % ("  " if self.lead else "", body, "  " if self.trail else "",
-                                       "" if self.comment is None else "# c", "\\n" if self.nl else ""))
+                                       "" if self.comment is None else ("#c" if self.comment == "glued" else "# c"), "\\n" if self.nl else ""))
 
 
 class PosV:
@@ -83,6 +83,24 @@ class PosV:
 
     def __init__(self, kind, line):
         self.kind, self.line = kind, line
+
+
+class PosNear:
+    """p - 1 / p + 1 for a marker position p"""
+
+    def __init__(self, pos, delta):
+        self.pos, self.delta = pos, delta
+
+
+class CharV:
+    """One character of a line: only its class is known."""
+    python_type = "str"
+
+    def __init__(self, space):
+        self.space = space
+
+    def __repr__(self):
+        return "<%s character>" % ("blank" if self.space else "non-blank")
 
 
 class LenLine:
@@ -131,7 +149,7 @@ class LineWorld(CtorWorld):
 
     # -- attributes / methods on text ----------------------------------------------
     def load_attr(self, ip, obj, attr, node):
-        if isinstance(obj, (LineV, Tok, FileV)):
+        if isinstance(obj, (LineV, Tok, FileV, CharV)):
             return BoundMethod(obj, attr)
         if isinstance(obj, NewGraph) and attr in ("adj", "_adj", "succ", "_succ"):
             return AdjMap("succ" if self.directed else "adj")
@@ -139,10 +157,24 @@ class LineWorld(CtorWorld):
 
     def call_method(self, ip, obj, name, args, kwargs, node):
         if isinstance(obj, LineV):
-            if name == "find" and len(args) == 1:
+            if name in ("find", "index") and len(args) == 2 and isinstance(args[1], PosNear) and args[1].delta > 0:
+                # a second marker after the first one: the modelled lines carry one marker
+                if name == "index":
+                    raise AbstractRaise("ValueError", node, detail="substring not found")
+                return Const(-1)
+            if name in ("find", "index") and len(args) == 1:
                 if obj.comment is None:
+                    if name == "index":
+                        raise AbstractRaise("ValueError", node, detail="substring not found")
                     return Const(-1)
                 return PosV("zero" if obj.comment == "start" and not obj.lead else "positive", obj)
+            if name in ("partition", "rpartition") and len(args) == 1 and isinstance(args[0], Const) and args[0].v == self.cfg.get("marker", "#"):
+                if obj.comment is None:
+                    empty = LineV([], lead=False, trail=False, nl=False, comment=None, sep=obj.sep)
+                    return TupleV([obj, empty, empty]) if name == "partition" else TupleV([empty, empty, obj])
+                if name == "rpartition":
+                    raise Unsupported(node, "rpartition at the comment marker")
+                return TupleV([self.before_marker(obj), args[0], Opaque("comment text")])
             if name in ("strip", "rstrip", "lstrip"):
                 chars = args[0].v if args and isinstance(args[0], Const) else None
                 new = obj
@@ -162,6 +194,8 @@ class LineWorld(CtorWorld):
                 return self.split(obj, delim, maxsplit, node)
             if name in ("decode", "encode"):
                 return obj
+        if isinstance(obj, CharV) and name == "isspace" and not args:
+            return Const(obj.space)
         if isinstance(obj, FileV):
             if name in ("close", "flush"):
                 obj.closed = name == "close" or obj.closed
@@ -172,12 +206,31 @@ class LineWorld(CtorWorld):
             return self.rank(args[0], node)
         return super().call_method(ip, obj, name, args, kwargs, node)
 
+    def before_marker(self, line):
+        """the text in front of the comment marker"""
+        if line.comment == "start" and not line.lead:
+            return LineV([], lead=False, trail=False, nl=False, comment=None, sep=line.sep)
+        return line.but(comment=None, trail=(bool(line.fields) and line.comment != "glued") or (line.trail and line.comment != "glued")
+                        or (line.comment == "start" and line.lead), nl=False)
+
     def split(self, line, delim, maxsplit, node):
-        if line.comment is not None:
+        if isinstance(delim, Const) and delim.v == self.cfg.get("marker", "#") and line.sep != "marker":
+            # cutting at the comment marker: 'text # comment'.split('#', 1)
+            if line.comment is None:
+                return ListObj([line])
+            k = maxsplit.v if isinstance(maxsplit, Const) and isinstance(maxsplit.v, int) else -1
+            if k != 1:
+                raise Unsupported(node, "split at the comment marker without maxsplit=1")
+            return ListObj([self.before_marker(line), Opaque("comment text")])
+        glued = line.comment == "glued" and bool(line.fields)
+        if line.comment is not None and not glued:
             # splitting a line that still carries its comment: the comment words become fields
             extra = [Tok("comment-word", dirty="comment")]
         else:
             extra = []
+        if glued:
+            # the marker and the comment stick to the last field
+            line = line.but(fields=list(line.fields[:-1]) + [line.fields[-1].but(dirty="glued-comment")])
         if isinstance(delim, Const) and delim.v is None:
             toks = list(line.fields) + extra
         elif isinstance(delim, Const) and isinstance(delim.v, str):
@@ -210,7 +263,7 @@ class LineWorld(CtorWorld):
                 if p.kind == "zero":
                     return LineV([], lead=False, trail=False, nl=False, comment=None, sep=obj.sep)
                 # text before the marker: the fields, possibly followed by the blanks that separated them from the marker
-                return obj.but(comment=None, trail=bool(obj.fields) or obj.trail, nl=False)
+                return self.before_marker(obj)
             if isinstance(p, Const) and p.v == -1:
                 # line[:-1] chops the last character
                 raise Unsupported(node, "line[:-1]")
@@ -292,7 +345,15 @@ class LineWorld(CtorWorld):
     def load_subscript(self, ip, obj, key, node):
         if isinstance(obj, RankMap):
             return self.rank(key, node)
+        if isinstance(obj, LineV) and isinstance(key, PosNear) and key.delta == -1 and key.pos.kind == "positive":
+            # the character in front of the marker: a blank unless the comment is glued to a field
+            return CharV(space=obj.comment != "glued")
         return super().load_subscript(ip, obj, key, node)
+
+    def binop(self, ip, a, op, b, node):
+        if isinstance(a, PosV) and isinstance(b, Const) and b.v == 1 and isinstance(op, (ast.Add, ast.Sub)):
+            return PosNear(a, 1 if isinstance(op, ast.Add) else -1)
+        return super().binop(ip, a, op, b, node)
 
     def call(self, ip, f, args, kwargs, node):
         if isinstance(f, Converter):
@@ -359,6 +420,7 @@ def row_shapes(fmt, sep):
     valid = shapes[0]
     shapes += [
         ("valid row + trailing comment", valid[1].but(comment="after"), valid[2]),
+        ("valid row + comment glued to the last field", valid[1].but(comment="glued"), valid[2]),
         ("comment-only line", LineV([], comment="start", sep=sep), None),
         ("empty string", LineV([], nl=False, sep=sep), None),
         ("bare newline", LineV([], nl=True, sep=sep), None),
